@@ -802,18 +802,22 @@ theorem nameOf_eq (mf : BVal) (info : Dict) (name : Bytes)
   rw [hinfo]
   simp only [Option.bind_some, BVal.get?, hname]
 
+theorem infoOf_eq (mf : BVal) (info : Dict) (hinfo : mf.get? K.info = some (.dict info)) :
+    Impl.infoOf mf = info := by
+  simp only [Impl.infoOf, hinfo]
+
 /-- THE whole-`Checker` refinement -/
 theorem recheckMeta_of_plan (H1 H : Bytes → Bytes) (B hs : Nat) (hhs : 0 < hs) (mf : BVal)
     (disk : Disk) (p : Plan) (argName : Bytes) (here : Option Node)
     (hplan : plan B mf disk = some p) (hscope : p.InScope B hs)
-    (hroot : Impl.findRoot (Impl.nameOf mf) argName here = .ok disk)
+    (hroot : Impl.findRoot (Impl.infoOf mf) (Impl.nameOf mf) argName here = .ok disk)
     (hnodir : NoDirAtFile mf disk) (hne : ¬ EmptySingleV2 mf (isFile disk)) :
     Impl.recheckMeta H1 H B hs mf argName here
       = .ok (p.verdicts H1 H B hs, ratio (p.verdicts H1 H B hs)) := by
   obtain ⟨pp⟩ := plan_inv B mf disk p hplan
   obtain ⟨recs, info, name, pi, hrecs, hinfo, hname, hpl, hpos, hcase⟩ := pp
   have hnm := nameOf_eq mf info name hinfo hname
-  rw [hnm] at hroot
+  rw [hnm, infoOf_eq mf info hinfo] at hroot
   have hsubinfo := sub_of_get? mf K.info _ hinfo
   have hcp := checkPaths_of_described mf info name (isFile disk) recs hinfo hname hrecs (by
     intro hv he
@@ -863,13 +867,55 @@ theorem recheckMeta_of_plan (H1 H : Bytes → Bytes) (B hs : Nat) (hhs : 0 < hs)
 
 /-! ### `find_root` -/
 
-theorem findRoot_root (name : Bytes) (nd : Node) : Impl.findRoot name name (some nd) = .ok nd := by
-  simp [Impl.findRoot]
+theorem findRoot_root (info : Dict) (name : Bytes) (nd : Node)
+    (h : Impl.descends info name nd = .ok false) :
+    Impl.findRoot info name name (some nd) = .ok nd := by
+  simp [Impl.findRoot, h]
 
-theorem findRoot_parent (name pname : Bytes) (es : List (Bytes × Node)) (payload : Node)
-    (hne : pname ≠ name) (hc : child (.dir es) name = some payload) :
-    Impl.findRoot name pname (some (.dir es)) = .ok payload := by
+theorem findRoot_parent (info : Dict) (name pname : Bytes) (es : List (Bytes × Node))
+    (payload : Node) (hne : pname ≠ name) (hc : child (.dir es) name = some payload) :
+    Impl.findRoot info name pname (some (.dir es)) = .ok payload := by
   simp [Impl.findRoot, hne, hc]
+
+/-- a parent directory that is itself named like the torrent: `_is_parent` decides -/
+theorem findRoot_parent_named (info : Dict) (name : Bytes) (es : List (Bytes × Node))
+    (payload : Node) (hc : child (.dir es) name = some payload)
+    (hp : Impl.isParent info name (.dir es) payload = .ok true) :
+    Impl.findRoot info name name (some (.dir es)) = .ok payload := by
+  simp [Impl.findRoot, Impl.descends, hc, hp]
+
+theorem findRoot_parent_any (info : Dict) (name pname : Bytes) (es : List (Bytes × Node))
+    (payload : Node) (hc : child (.dir es) name = some payload)
+    (h : pname ≠ name ∨ Impl.isParent info name (.dir es) payload = .ok true) :
+    Impl.findRoot info name pname (some (.dir es)) = .ok payload := by
+  by_cases hn : pname = name
+  · subst hn
+    rcases h with h | h
+    · exact absurd rfl h
+    · exact findRoot_parent_named info pname es payload hc h
+  · exact findRoot_parent info name pname es payload hn hc
+
+theorem isParent_tops (info : Dict) (name : Bytes) (tops : List Bytes) (outer inner : Node)
+    (h : Impl.topsOf info name = .ok (some tops)) :
+    Impl.isParent info name outer inner
+      = .ok (decide (Impl.countTops outer tops < Impl.countTops inner tops)) := by
+  simp [Impl.isParent, h]
+
+theorem isParent_single (info : Dict) (name : Bytes) (outer inner : Node)
+    (h : Impl.topsOf info name = .ok none) :
+    Impl.isParent info name outer inner = .ok (isFile inner) := by
+  simp [Impl.isParent, h]
+
+/-- `find_root` stays at a regular file -/
+theorem descends_file (info : Dict) (name : Bytes) (d : Bytes) :
+    Impl.descends info name (.file d) = .ok false := rfl
+
+/-- `find_root` stays at a directory that has no entry named like the torrent -/
+theorem descends_no_entry (info : Dict) (name : Bytes) (nd : Node) (h : child nd name = none) :
+    Impl.descends info name nd = .ok false := by
+  cases nd with
+  | file d => rfl
+  | dir es => simp [Impl.descends, h]
 
 theorem get?_of_sub (v : BVal) (k : Bytes) (x : BVal) (h : sub v k = .ok x) : v.get? k = some x := by
   cases v with
@@ -885,7 +931,7 @@ theorem get?_of_sub (v : BVal) (k : Bytes) (x : BVal) (h : sub v k = .ok x) : v.
 /-- `Checker` uses the content path only through `find_root` -/
 theorem recheckMeta_congr (H1 H : Bytes → Bytes) (B hs : Nat) (mf : BVal) (a1 a2 : Bytes)
     (h1 h2 : Option Node)
-    (h : Impl.findRoot (Impl.nameOf mf) a1 h1 = Impl.findRoot (Impl.nameOf mf) a2 h2) :
+    (h : Impl.findRoot (Impl.infoOf mf) (Impl.nameOf mf) a1 h1 = Impl.findRoot (Impl.infoOf mf) (Impl.nameOf mf) a2 h2) :
     Impl.recheckMeta H1 H B hs mf a1 h1 = Impl.recheckMeta H1 H B hs mf a2 h2 := by
   unfold Impl.recheckMeta
   cases e1 : sub mf K.info with
@@ -903,7 +949,7 @@ theorem recheckMeta_congr (H1 H : Bytes → Bytes) (B hs : Nat) (mf : BVal) (a1 
         | str name =>
           have hn : Impl.nameOf mf = name :=
             nameOf_eq mf info name (get?_of_sub _ _ _ e1) (get?_of_sub (.dict info) _ _ e2)
-          rw [hn] at h
+          rw [hn, infoOf_eq mf info (get?_of_sub _ _ _ e1)] at h
           simp only [str, bind_ok, h]
         | int _ => rfl
         | list _ => rfl
@@ -1115,7 +1161,7 @@ theorem recheckMeta_intact (H1 H : Bytes → Bytes) (B hs : Nat) (hhs : 0 < hs)
     (hH1 : ∀ b, (H1 b).length = 20) (hH : ∀ b, (H b).length = hs) (mf : BVal) (disk : Disk)
     (p : Plan) (argName : Bytes) (here : Option Node) (hplan : plan B mf disk = some p)
     (hint : p.Intact H1 H B hs) (htotal : 0 < p.total)
-    (hroot : Impl.findRoot (Impl.nameOf mf) argName here = .ok disk) :
+    (hroot : Impl.findRoot (Impl.infoOf mf) (Impl.nameOf mf) argName here = .ok disk) :
     Impl.recheckMeta H1 H B hs mf argName here = .ok (p.verdicts H1 H B hs, p.total, p.total) := by
   rw [recheckMeta_of_plan H1 H B hs hhs mf disk p argName here hplan
     (intact_inScope H1 H B hs hH mf disk p hplan hint) hroot
@@ -1127,18 +1173,18 @@ theorem recheckMeta_intact (H1 H : Bytes → Bytes) (B hs : Nat) (hhs : 0 < hs)
   simp only at hs2
   rw [hs2]
 
-theorem findRoot_place (arg : ContentArg) (name : Bytes) (disk : Disk)
-    (h : arg.Resolves name) :
-    Impl.findRoot name arg.argName (some (arg.place name disk)) = .ok disk := by
+theorem findRoot_place (arg : ContentArg) (info : Dict) (name : Bytes) (disk : Disk)
+    (h : arg.Resolves info name disk) :
+    Impl.findRoot info name arg.argName (some (arg.place name disk)) = .ok disk := by
   obtain ⟨kind, argName⟩ := arg
   cases kind with
   | root =>
     simp only [ContentArg.Resolves] at h
-    subst h
-    exact findRoot_root _ _
+    obtain ⟨rfl, hd⟩ := h
+    exact findRoot_root info _ _ hd
   | parent =>
     simp only [ContentArg.Resolves] at h
-    exact findRoot_parent name argName _ disk h (by simp [child])
+    exact findRoot_parent_any info name argName _ disk (by simp [child]) h
 
 end Spec
 
@@ -1190,6 +1236,15 @@ def v2Disk : Disk :=
 
 /-- `a` truncated to 5 bytes, `d/c` removed -/
 def v2Damaged : Disk := .dir [([97], .file [1, 2, 3, 4, 5]), ([98], .file [])]
+
+/-- a directory `n` that holds the intact payload `n` AND, directly, entries named like all
+    three described top-level entries (`a` with other content): a tie for `_is_parent` -/
+def v2Crowded : List (Bytes × Node) :=
+  [([110], v2Disk), ([97], .file [9]), ([98], .file []), ([100], .dir [])]
+
+/-- a payload directory `n` without any of the described entries, but with a stray directory
+    `n` that has `a` and `b` -/
+def v2Stray : Disk := .dir [([110], .dir [([97], .file [1, 2, 3, 4, 5, 6, 7]), ([98], .file [])])]
 
 /-- v2 single file `n` (7 bytes) as a specification-conformant encoder writes it: no
     `info.length` -/
